@@ -78,6 +78,8 @@ int
 cmd_grid (int argc, char **argv)
 {	if (argc >= 1 && !strcmp (argv [0], "c10"))
 		return grid_c10 (argc - 1, argv + 1) ;
+	if (argc >= 1 && !strcmp (argv [0], "c17"))
+		return grid_c17 (argc - 1, argv + 1) ;
 	fprintf (stderr, "sfh grid: unknown grid\n") ;
 	return 2 ;
 }
